@@ -333,13 +333,16 @@ def gen_image_layout():
             raise TranslateError('image_to_bin: field %s is initialised from `%s`, which is not modelled' % (f, expr))
     if sorted(f for f, _ in enc_sources) != sorted(f for f, _ in fields):
         raise TranslateError('image_to_bin: struct literal does not initialise exactly the fields of ImageData')
-    m = re.fullmatch(ws(r'\{ let bin = decompress::decompress\(bin\)\.ok\(\)\?; let img = bincode::deserialize::<ImageData>\(&bin\)\.ok\(\)\?; let (\w+) = match img\.(\w+) \{(.*?)\}; Some\(Image::new\( Extent3d \{ width: img\.(\w+), height: img\.(\w+), depth_or_array_layers: img\.(\w+), \}, (\w+), img\.(\w+), img\.(\w+), RenderAssetUsages::RENDER_WORLD \| RenderAssetUsages::MAIN_WORLD, \)\) \}'), dec, re.S)
+    # the image is assembled field by field (not Image::new, whose debug assertion rejects data that is not
+    # extent x texel size: repair of S32): every assignment is read, anything else fails the translation
+    m = re.fullmatch(ws(r'\{ let bin = decompress::decompress\(bin\)\.ok\(\)\?; let img = bincode::deserialize::<ImageData>\(&bin\)\.ok\(\)\?; let (\w+) = match img\.(\w+) \{(.*?)\}; let mut image = Image::default\(\); image\.data = img\.(\w+); image\.texture_descriptor\.dimension = (\w+); image\.texture_descriptor\.size = Extent3d \{ width: img\.(\w+), height: img\.(\w+), depth_or_array_layers: img\.(\w+), \}; image\.texture_descriptor\.format = img\.(\w+); image\.asset_usage = RenderAssetUsages::RENDER_WORLD \| RenderAssetUsages::MAIN_WORLD; Some\(image\) \}'), dec, re.S)
     if not m:
         raise TranslateError('bin_to_image: not in the expected shape')
-    if m.group(7) != m.group(1):
-        raise TranslateError('bin_to_image: Image::new does not receive the matched dimension')
+    if m.group(5) != m.group(1):
+        raise TranslateError('bin_to_image: the image does not receive the matched dimension')
+    g = dict(dimfield=m.group(2), arms=m.group(3), data=m.group(4), width=m.group(6), height=m.group(7), depth=m.group(8), fmt=m.group(9))
     dim_dec, dim_default = [], None
-    for a in [x for x in split_top(m.group(3)) if x]:
+    for a in [x for x in split_top(g['arms']) if x]:
         am = re.fullmatch(ws(r'(\d+|_) => TextureDimension::(\w+)'), a)
         if not am:
             raise TranslateError('bin_to_image: dimension arm `%s` not understood' % a)
@@ -353,9 +356,8 @@ def gen_image_layout():
         raise TranslateError('bin_to_image: dimension match has no wildcard arm')
     if len({k for k, _ in dim_dec}) != len(dim_dec):
         raise TranslateError('bin_to_image: duplicate dimension arm')
-    # Image::new(size, dimension, data, format, usage)
-    dec_targets = [('ISrcDimension', m.group(2)), ('ISrcWidth', m.group(4)), ('ISrcHeight', m.group(5)),
-                   ('ISrcDepth', m.group(6)), ('ISrcData', m.group(8)), ('ISrcFormat', m.group(9))]
+    dec_targets = [('ISrcDimension', g['dimfield']), ('ISrcWidth', g['width']), ('ISrcHeight', g['height']),
+                   ('ISrcDepth', g['depth']), ('ISrcData', g['data']), ('ISrcFormat', g['fmt'])]
     for _, f in dec_targets:
         known(f, IFIELDS, 'bin_to_image')
     out = ['(* GENERATED by tools/lib/bvlib/src2v_codec.py from /repo/%s — do not edit *)' % rel] + HEADER
@@ -368,7 +370,7 @@ def gen_image_layout():
     out.append('(* `bin_to_image`: `match img.dimensions`, numbered arms and the wildcard arm *)')
     out.append('Definition dim_dec_table : list (N * dimension) := [' + '; '.join('(%d, %s)' % x for x in dim_dec) + '].')
     out.append('Definition dim_dec_default : dimension := %s.' % dim_default)
-    out.append('(* `bin_to_image`: which field each argument of Image::new(size, dimension, data, format, ..) is taken from *)')
+    out.append('(* `bin_to_image`: which field each part of the rebuilt Image (size, dimension, data, format) is taken from *)')
     out.append('Definition image_dec_targets : list (isource * ifield) :=\n  [' + '; '.join('(%s, I_%s)' % (s, f) for s, f in dec_targets) + '].')
     out.append('')
     return '\n'.join(out)
